@@ -33,9 +33,13 @@ def run(ctx):
     os_def = sd.get("opcode_set", [])
     j_def = sd.get("j", [])
     ok = len(os_def) == 1 and os_def[0].k == "CallExpr" and os_def[0].name == "orc_opcode_set_find_by_opcode" and unparse(os_def[0].args()[0]) == "opcode"
-    ok = ok and len(j_def) == 1 and j_def[0].k == "CallExpr" and j_def[0].name == "orc_opcode_set_find_by_name" and \
+    # the slot index is the opcode's position in ITS OWN set: by name lookup in that set, or by pointer difference from that set's array
+    by_name = len(j_def) == 1 and j_def[0].k == "CallExpr" and j_def[0].name == "orc_opcode_set_find_by_name" and \
         unparse(j_def[0].args()[0]) == "opcode_set" and unparse(j_def[0].args()[1]) == "opcode->name"
-    rep.check(ok, "D1-SAME-SET", where(gr), "index-source", "slot index j = find_by_name(find_by_opcode(opcode), opcode->name)",
+    by_diff = len(j_def) == 1 and j_def[0].k == "BinaryOperator" and j_def[0].op == "-" and unparse(strip_casts(j_def[0].c[0])) == "opcode" and \
+        unparse(strip_casts(j_def[0].c[1])) == "opcode_set->opcodes"
+    ok = ok and (by_name or by_diff)
+    rep.check(ok, "D1-SAME-SET", where(gr), "index-source", "slot index j is the opcode's position in the set returned by find_by_opcode(opcode)",
               "slot index is no longer computed in the opcode's own set: opcode_set=%s j=%s" % ([unparse(x) for x in os_def], [unparse(x) for x in j_def]))
     fc = Facts(gr)
     uses = [n for n in gr.walk() if n.k == "BinaryOperator" and n.op == "+" and unparse(strip_casts(n.c[1])) == "j" and "rules" in unparse(n.c[0])]
@@ -44,7 +48,15 @@ def run(ctx):
         raise AnalysisBroken("orc_target_get_rule: use of the slot index not found")
     for u in uses:
         conds = [(unparse(x[0]), x[1]) for x in fc.conds(u) if x[0] != "switch"]
-        ok = ("(target->rule_sets[i].opcode_major != opcode_set->opcode_major)", False) in conds
+        ok = False
+        for x in fc.conds(u):
+            if x[0] == "switch":
+                continue
+            e = strip_casts(x[0])
+            if e.k == "BinaryOperator" and e.op in ("!=", "==") and (x[1] is False) == (e.op == "!="):
+                sides = sorted(unparse(strip_casts(y)) for y in e.c)
+                if "opcode_set->opcode_major" in sides and any(t.endswith("opcode_major") and not t.startswith("opcode_set") for t in sides):
+                    ok = True
         rep.check(ok, "D1-SAME-SET", where(gr), "major-filter", "index used only with rule sets of the same opcode major",
                   "rules[j] is read from a rule set whose opcode_major was not compared with the opcode's set (facts: %s)" % conds, line=u.line)
     rs = db.func("orc_rule_set_new", "orcrule")
@@ -79,18 +91,48 @@ def run(ctx):
     rep.check(init == "(i=(target->n_rule_sets-1))" and cond == "(i>=0)" and inc == "i--", "D2-NEWEST-FIRST", where(gr), "search-order",
               "rule sets searched from the newest (n_rule_sets-1) down to 0",
               "search loop is `for (%s; %s; %s)`: a rule set registered later no longer takes precedence" % (init, cond, inc), line=lp.line)
-    rets = [r for r in gr.walk() if r.k == "ReturnStmt" and r.c and unparse(r.c[0]) == "rule"]
+    rets = [r for r in gr.walk() if r.k == "ReturnStmt" and r.c and r.c[0] is not None and strip_casts(r.c[0]).v is None]
+    if not rets:
+        raise AnalysisBroken("orc_target_get_rule: no non-constant return")
+    from exprval import admitted
+    from exprval import variables
+    want = {(r_, f_) for r_ in range(8) for f_ in range(8) if (r_ & ~f_) == 0}
     for r in rets:
-        conds = [(unparse(x[0]), x[1]) for x in fc.conds(r) if x[0] != "switch"]
-        flags_ok = ("(target->rule_sets[i].required_target_flags & ~target_flags)", False) in conds
-        emit_ok = ("rule->emit", True) in conds
-        rep.check(flags_ok and emit_ok, "D2-NEWEST-FIRST", where(gr), "return-rule",
-                  "a rule is returned only if its set's required flags are all present and it has an emitter",
-                  "rule returned under %s: required flags / emitter not established" % conds, line=r.line)
-    skip = [n for n in gr.walk() if n.k == "IfStmt" and "required_target_flags" in unparse(n.c[0])]
-    rep.check(len(skip) == 1 and unparse(skip[0].c[0]).replace(" ", "") == "(target->rule_sets[i].required_target_flags&~target_flags)" and
-              any(x.k == "ContinueStmt" for x in skip[0].c[1].walk()), "D2-NEWEST-FIRST", where(gr), "skip-iff-flag-missing",
-              "a set is skipped exactly when required & ~flags is non-zero", "the flag filter of the search changed: %s" % [unparse(s.c[0]) for s in skip])
+        conds = fc.conds(r)
+        from flow import single_defs
+        _sd = single_defs(gr)
+        res = lambda nm: _sd.get(nm)
+        allv = set()
+        for x in conds:
+            if x[0] != "switch":
+                allv |= variables(x[0], res)
+        # the two quantities are recognised by the field / parameter they denote, however they are reached
+        reqs = sorted(v for v in allv if v.endswith("required_target_flags"))
+        flgs = sorted(v for v in allv if v.endswith("target_flags") and not v.endswith("required_target_flags"))
+        REQ, FLG = (reqs + ["?req"])[0], (flgs + ["?flags"])[0]
+        got, rel = admitted(conds, (REQ, FLG), range(8), res)
+        rel = [x for x in rel if variables(x[0], res) & {REQ, FLG}]
+        if len(reqs) > 1 or len(flgs) > 1:
+            raise AnalysisBroken("orc_target_get_rule: several flag words in the guards: %s %s" % (reqs, flgs))
+        if not rel:
+            got = {(a, b) for a in range(8) for b in range(8)}
+        if False:
+            raise AnalysisBroken("orc_target_get_rule: no fact about %s / %s reaches `return rule` (renamed?)" % (REQ, FLG))
+        extra = sorted(got - want)
+        missing = sorted(want - got)
+        rep.check(not extra, "D2-NEWEST-FIRST", where(gr), "return-rule:all-required-flags",
+                  "a rule is returned only when every required flag of its set is present (guard equivalent to required & ~flags == 0 over all 3-bit masks)",
+                  "a rule can be returned although a required flag is missing, e.g. required=%s flags=%s (guards: %s)" %
+                  (bin(extra[0][0]) if extra else "", bin(extra[0][1]) if extra else "", [unparse(x[0]) + ("" if x[1] else " [false]") for x in rel]), line=r.line)
+        rep.check(not missing, "D2-NEWEST-FIRST", where(gr), "return-rule:no-valid-set-skipped",
+                  "no rule set whose required flags are all present is skipped",
+                  "a rule set is skipped although all its required flags are present, e.g. required=%s flags=%s (guards: %s)" %
+                  (bin(missing[0][0]) if missing else "", bin(missing[0][1]) if missing else "", [unparse(x[0]) + ("" if x[1] else " [false]") for x in rel]), line=r.line)
+        emit_ok = any(x[0] != "switch" and unparse(x[0]) == "rule->emit" and x[1] is True for x in conds) or \
+            any(x[0] != "switch" and "rule->emit" in unparse(x[0]) and "NULL" not in unparse(x[0]) and x[1] is True for x in conds) or \
+            any(x[0] != "switch" and strip_casts(x[0]).k == "BinaryOperator" and strip_casts(x[0]).op == "!=" and "rule->emit" in unparse(x[0]) and x[1] is True for x in conds)
+        rep.check(emit_ok, "D2-NEWEST-FIRST", where(gr), "return-rule:has-emitter", "a rule is returned only if it has an emitter",
+                  "rule returned without its emit pointer having been tested", line=r.line)
 
     # ---- D3 ------------------------------------------------------------------
     ee = db.func("orc_executor_emulate", "orcexecutor")
